@@ -919,6 +919,11 @@ class CodeGen:
         "fork_worker": ["_pid = os.fork()", "if _pid:", "    os._exit(os.waitstatus_to_exitcode(os.waitpid(_pid, 0)[1]))"],
     }
 
+    def st_chdir(self, s):
+        # the script changes its working directory in the middle of the run
+        self.emit("os.makedirs('sub', exist_ok=True); os.chdir('sub')")
+        self.step({"kind": "chdir"})
+
     def st_caught_exit(self, s):
         self.emit("try:")
         self.emit("    sys.exit(%s)" % s.get("arg", ""))
